@@ -1,7 +1,7 @@
 //! C20 — cutting propagation short never makes a claim wrong.
 
 use super::c06::{check_consumers, check_values, traces_for};
-use super::c07::{check_cs0013, check_degrees, control_depends_on_data, data_param_flags, gen_c07_case, run_line};
+use super::c07::{check_cs0013, check_degrees, data_param_flags, gen_c07_case, run_line, taint_info};
 use super::semcase::*;
 use crate::engine::*;
 use crate::obs;
@@ -88,7 +88,8 @@ fn degree_case(tape: &[u8], rec: &Rec) -> Verdict {
         rec.class("degree_programs_biased_to_late_facts");
     }
     let flags = data_param_flags(&c);
-    if control_depends_on_data(&c, &flags) {
+    let (control_depends, skip) = taint_info(&c, &flags);
+    if control_depends {
         rec.class("discarded_control_flow_may_depend_on_indeterminates");
         return Ok(());
     }
@@ -105,7 +106,7 @@ fn degree_case(tape: &[u8], rec: &Rec) -> Verdict {
         rec.class("degree_cuts");
         let label = format!("[degree propagation cut after {k} of {fix} passes] ");
         for line in &lines {
-            let st = check_degrees(&c, &ix, line, &ssa, &label).map_err(|b| Bad { signature: format!("C20:{}", b.signature), ..b })?;
+            let st = check_degrees(&c, &ix, line, &ssa, &label, &skip).map_err(|b| Bad { signature: format!("C20:{}", b.signature), ..b })?;
             check_cs0013(&c, line, &ssa, &label, rec).map_err(|b| Bad { signature: format!("C20:{}", b.signature), ..b })?;
             rec.class_n("degree_claims_at_cuts", st.claims);
             if k < fix && st.nontrivial > 0 {
